@@ -898,7 +898,8 @@ class Tr:
             return k
         self.counter += 1
         nm = f"{self.name}.join{self.counter}"
-        vs = self.live_vars(rest, env)
+        # the continuation `k` (code after `rest`) may read further variables: carry everything the function mentions
+        vs = self.live_vars(list(self.fn.body), env)
         body = self.T(rest, env, k, loop)
         text = (f"def {nm} {self.header_generic()}{self.fuelbinder()}{self.binder(vs, env)} : Except Err {lean_type(self.res_type)} := do\n"
                 + textwrap.indent("\n".join(body), "  "))
@@ -1218,12 +1219,14 @@ def slice_function(fn, spec):
         if not ends:
             raise Untranslatable(f"slice end {sl['end']!r} not found after {sl['start']!r}")
         body = list(block[i:ends[0] + 1])
-        names = list(sl["result"])
-        ret = ast.Return(value=ast.Name(id=names[0], ctx=ast.Load()) if len(names) == 1
-                         else ast.Tuple(elts=[ast.Name(id=n, ctx=ast.Load()) for n in names], ctx=ast.Load()))
+        names = list(sl.get("result", []))
+        tail = []
+        if names:
+            tail = [ast.Return(value=ast.Name(id=names[0], ctx=ast.Load()) if len(names) == 1
+                               else ast.Tuple(elts=[ast.Name(id=n, ctx=ast.Load()) for n in names], ctx=ast.Load()))]
         new = ast.FunctionDef(name=fn.name, args=ast.arguments(
             posonlyargs=[], args=[ast.arg(arg=a) for a in spec.get("params", {})], kwonlyargs=[], kw_defaults=[], defaults=[]),
-            body=body + [ret], decorator_list=[], type_params=[])
+            body=body + tail, decorator_list=[], type_params=[])
         ast.copy_location(new, fn)
         ast.fix_missing_locations(new)
         return new
